@@ -20,7 +20,7 @@ from common import Evidence, Verdicts, run_tlc, stage_spec, MachineryError
 
 PROP = "C19"
 
-STR_ORDER = ["o", "p", "q", "s", "t", "u", "v", "w", "x", "y", "z"]
+STR_ORDER = ["a", "o", "p", "q", "s", "t", "u", "v", "w", "x", "y", "z"]
 
 
 def cell(v):
@@ -37,7 +37,7 @@ def row(*vals):
 
 COLS0 = ["a", "b", "c"]
 ROWS0 = [(1, 2.5, "x"), (2, 3.5, "y"), (3, 4.5, "z")]
-INSERT_ROWS = [(4, 5.5, "w"), (2, 9.5, "q"), (4, 7.5, "v"), (0, 1.5, "p")]
+INSERT_ROWS = [(4, 5.5, "w"), (2, 9.5, "q"), (4, 7.5, "v"), (0, 1.5, "p"), (3, 0.5, "a")]   # (3,"a"): ties the largest first key component
 BATCHES = [[(5, 6.5, "u"), (5, 8.5, "t")], [(6, 7.5, "s"), (0, 0.5, "o")]]
 INDEX_CHOICES = [["a"], ["a", "c"], ["c", "a"]]      # incl. key columns in another order than the table's
 READ_COLS = ["a", "c", "nope"]
